@@ -112,6 +112,20 @@ pub struct RunCfg {
 
 thread_local! {
     static LAST_PANIC: RefCell<String> = RefCell::new(String::new());
+    static CATCH_DEPTH: std::cell::Cell<u32> = std::cell::Cell::new(0);
+}
+
+struct DepthGuard;
+impl DepthGuard {
+    fn new() -> DepthGuard {
+        CATCH_DEPTH.with(|d| d.set(d.get() + 1));
+        DepthGuard
+    }
+}
+impl Drop for DepthGuard {
+    fn drop(&mut self) {
+        CATCH_DEPTH.with(|d| d.set(d.get().saturating_sub(1)));
+    }
 }
 
 /// Install a silent panic hook that remembers the message (per thread).
@@ -125,6 +139,10 @@ pub fn install_quiet_hook() {
             "<non-string panic>".to_string()
         };
         let loc = info.location().map(|l| format!("{}:{}", l.file(), l.line())).unwrap_or_default();
+        // a panic outside any catch region is a harness bug: make it visible
+        if CATCH_DEPTH.with(|d| d.get()) == 0 {
+            eprintln!("HARNESS PANIC (outside a checked region): {} @ {}", msg, loc);
+        }
         LAST_PANIC.with(|p| *p.borrow_mut() = format!("{} @ {}", msg, loc));
     }));
 }
@@ -135,6 +153,7 @@ pub fn last_panic() -> String {
 
 /// Run a closure, converting a panic into `Err(message)`.
 pub fn catch<R>(f: impl FnOnce() -> R) -> Result<R, String> {
+    let _g = DepthGuard::new();
     match catch_unwind(AssertUnwindSafe(f)) {
         Ok(r) => Ok(r),
         Err(_) => Err(last_panic()),
@@ -143,6 +162,7 @@ pub fn catch<R>(f: impl FnOnce() -> R) -> Result<R, String> {
 
 /// One checked case: panics escaping the check function are violations too.
 pub fn guarded_check<P: Property>(p: &P, case: &P::Case, st: &mut Stats) -> CheckResult {
+    let _g = DepthGuard::new();
     match catch_unwind(AssertUnwindSafe(|| p.check(case, st))) {
         Ok(r) => r,
         Err(_) => Err(Violation {
